@@ -227,19 +227,19 @@ def eval_sami(spec, video):
 ABS_LEN = re.compile(r"\d(?:px|em|pt|c)\b")
 
 
-def eval_vtt(spec, video, relativize, fit=False):
+def eval_vtt(spec, video, relativize, fit=False, padded=False):
     from pycaption import WebVTTWriter
     from pycaption.exceptions import RelativizationError
 
     vw, vh = video
-    axes = ("ox", "oy", "ew", "eh")
+    axes = ("ox", "oy", "ew", "eh") + (("pb", "ps", "pe") if padded else ())
     exp = {a: exact_pct(spec[a][0], spec[a][1], a, vw, vh) for a in axes}
-    klass = "+".join(sorted({spec[a][1] for a in axes if spec[a][1] != "%"})) or "percent"
+    klass = ("+".join(sorted({spec[a][1] for a in axes if spec[a][1] != "%"})) or "percent") + ("/padded" if padded else "")
     all_rel = all(spec[a][1] == "%" for a in axes)
     want_err = relativize and any(e == "error" for e in exp.values())
     v = []
     try:
-        doc = shared.obj(WebVTTWriter, relativize=relativize, video_width=vw, video_height=vh, fit_to_screen=fit).write(mk_set(mk_layout(spec, True, False)))
+        doc = shared.obj(WebVTTWriter, relativize=relativize, video_width=vw, video_height=vh, fit_to_screen=fit).write(mk_set(mk_layout(spec, True, padded)))
     except RelativizationError:
         if not want_err:
             v.append((f"C13/webvtt/unexpected-RelativizationError/{klass}", {"spec": spec, "video": video}))
@@ -257,6 +257,10 @@ def eval_vtt(spec, video, relativize, fit=False):
         vals = {a: (exp[a] if relativize else Fraction(spec[a][0])) for a in axes}
         if fit and vals["ox"] + vals["ew"] > 90:
             vals["ew"] = 90 - vals["ox"]  # fit-to-screen: the right edge stays inside the safe area
+        if padded:
+            # the cue box lies inside the paddings: position / line move in by the start / before padding, the width
+            # loses both horizontal paddings (so the right edge of the text stays where the region's was, minus "end")
+            vals = dict(vals, ox=vals["ox"] + vals["ps"], oy=vals["oy"] + vals["pb"], ew=vals["ew"] - vals["ps"] - vals["pe"])
         for key, a in (("position", "ox"), ("line", "oy"), ("size", "ew")):
             e = vals[a]
             if fit and a == "ew" and e < 0:
@@ -495,6 +499,16 @@ def run_shard(d):
                                 acc.case(("vtt", a, unit, val, video, rel, fit), True, out, {"writer": "WebVTTWriter", "axis": a, "value": val + unit, "video": video, "relativize": rel, "fit_to_screen": fit})
                                 for sig, det in v:
                                     acc.violation(sig + ("/fit" if fit else ""), {"k": "vtt", "spec": spec, "video": video, "rel": rel, "fit": fit}, det)
+        # asymmetric paddings (start != end), with and without overflow
+        for ox, ew in (("10", "30"), ("35", "80"), ("10", "80.01")):
+            for ps, pe in (("5", "0"), ("0", "5"), ("2", "7")):
+                spec = spec_with(ox=(ox, "%"), ew=(ew, "%"), ps=(ps, "%"), pe=(pe, "%"))
+                for rel in (True, False):
+                    for fit in (False, True):
+                        v, out = eval_vtt(spec, (640, 360), rel, fit, True)
+                        acc.case(("vtt-padded", ox, ew, ps, pe, rel, fit), True, out, {"writer": "WebVTTWriter", "origin_x": ox, "extent_w": ew, "padding_start_end": [ps, pe], "relativize": rel, "fit_to_screen": fit})
+                        for sig, det in v:
+                            acc.violation(sig + ("/fit" if fit else ""), {"k": "vtt", "spec": spec, "video": (640, 360), "rel": rel, "fit": fit, "padded": True}, det)
         # percentage layouts that overflow, written with relativize on / off and fit on: the edge must be clamped
         for ox, ew in (("35", "80"), ("50", "40"), ("50", "41"), ("10", "80.01")):
             spec = spec_with(ox=(ox, "%"), ew=(ew, "%"))
@@ -535,7 +549,7 @@ def replay(case):
         elif k == "sami":
             v, _ = eval_sami(spec, video)
         else:
-            v, _ = eval_vtt(spec, video, case["rel"], case.get("fit", False))
+            v, _ = eval_vtt(spec, video, case["rel"], case.get("fit", False), bool(case.get("padded")))
             if case.get("fit"):
                 v = [(s_ + "/fit", d_) for s_, d_ in v]
     elif k == "doc-padding":
